@@ -3,12 +3,16 @@ package main
 import "verifharness/tl"
 
 // C06: every accepted task is started exactly once, rejected tasks never; progress while the context is live.
-// Families: pushes that time out against a full lane, random stress (cancel after everything ran => progress is
-// checked; cancel at a random moment => exactly-once under cancellation), work sharing as the progress case
-// with pinned workers, cancel points with a task in the queue goroutine's hands.
-func main() { tl.Main("C06", run) }
+// Families (each in a process of its own): pushes that time out against a full lane; cancel inside every
+// Done()/Err() call of PushTask; cancel when everything is idle after work was done; cancel points with a task
+// in the queue goroutine's hands; work sharing as the progress case with a pinned worker; back-to-back
+// New/push/cancel/Wait; random stress (cancel after everything ran => progress is checked; cancel at a random
+// moment => exactly-once under cancellation).
+func main() {
+	tl.Main("C06", []tl.Family{{Name: "scripted", Run: scripted}, {Name: "stress", Run: stress}})
+}
 
-func run(en *tl.Engine) {
+func scripted(en *tl.Engine) {
 	reps := 1
 	if en.E.Thorough() {
 		reps = 8
@@ -17,8 +21,8 @@ func run(en *tl.Engine) {
 		for _, c := range tl.Configs() {
 			n, q := c[0], c[1]
 			en.Timeouts(n, q)
-			for c := 0; c < 4; c++ {
-				en.CancelInsidePush(n, q, c, c%2 == 1)
+			for k := 0; k < 4; k++ {
+				en.CancelInsidePush(n, q, k, k%2 == 1)
 			}
 			en.IdleAfterWork(n, q, 1+q)
 			for _, s := range []string{"Q1", "Q2", "P1"} {
@@ -29,10 +33,13 @@ func run(en *tl.Engine) {
 				en.WorkSharing(n, q, []int{0}, 0, q+2)
 			}
 		}
+		for i := 0; i < 18; i++ {
+			en.BackToBack(2+i%3, 1+(i/3)%3, i%3, i)
+		}
 	}
-	for i := 0; i < 18; i++ {
-		en.BackToBack(2+i%3, 1+(i/3)%3, i%3, i)
-	}
+}
+
+func stress(en *tl.Engine) {
 	small, big := 400, 40
 	if en.E.Thorough() {
 		small, big = 4000, 600
